@@ -3459,6 +3459,14 @@ error_exit :
 				} ;
 		} ;
 
+	/*
+	**	For SFM_RDWR the close functions rewrite the header, and the header
+	**	writers rely on a valid SF_INFO (they divide by the channel count).
+	**	A file whose header did not supply one must not be rewritten.
+	*/
+	if (psf->file.mode == SFM_RDWR && validate_sfinfo (&psf->sf) == 0)
+		psf->file.mode = SFM_READ ;
+
 	psf_close (psf) ;
 	return NULL ;
 } /* psf_open_file */
